@@ -179,3 +179,25 @@ Definition holds_sched (c : scase) : bool :=
   && (if has_close (c_script c) then final_closed f else true)
   && locks_free f.
 
+
+(* ---- several managers alive in one process: the model is the product of independent managers, so
+   the run AS EACH MANAGER SAW IT (its own commands, its own players, its own device events, in the
+   order they happened) must be a run of its own model: every projected step is enabled and performs
+   the same operation, same event trace, same final state, same verdict.  (The enabled sets are not
+   compared: while the control thread executes a command of another manager it is idle for this one,
+   a state the single-manager model does not have.) *)
+Fixpoint replay_proj (s : state) (steps : list (nat * nat * list nat)) : bool * state :=
+  match steps with
+  | [] => (true, s)
+  | (t, op, _) :: r =>
+      if Nat.eqb op (op_of s t)
+      then match step s t with Some s' => replay_proj s' r | None => (false, s) end
+      else (false, s)
+  end.
+Definition corr_proj (c : scase) : bool :=
+  let '(ok, s) := replay_proj (init (c_wait c) (c_script c)) (c_steps c) in
+  ok && list_eqb event_eqb (c_events c) (rev (strace s))
+  && final_eqb (c_final c) (final_of s)
+  && Nat.eqb (c_status c) (model_status s).
+Definition corr_multi (cs : list scase) : bool := forallb corr_proj cs.
+Definition holds_multi (cs : list scase) : bool := forallb holds_sched cs.
